@@ -40,10 +40,9 @@ def report(ctx, known, what, witness):
     return ctx.violation(what, witness)
 
 
-def conformance(ctx, module, cfg, cases, label, chunk=20000, timeout=1500):
+def _conf_once(ctx, module, cfg, cases, label, chunk, timeout):
     """ucheck.conformance with one retry: under heavy machine load a TLC run occasionally ends before it has evaluated every
-    case (seen once: states left on its queue, no evaluation error).  A private variant because lib/ucheck.py is shared;
-    the verdict logic is unchanged (the retry re-evaluates everything, nothing is skipped)."""
+    case (seen once: states left on its queue, no evaluation error).  The retry re-evaluates everything, nothing is skipped."""
     try:
         return ucheck.conformance(ctx, module, cfg, cases, label, chunk=chunk, timeout=timeout)
     except vlib.MachineryError as e:
@@ -52,9 +51,26 @@ def conformance(ctx, module, cfg, cases, label, chunk=20000, timeout=1500):
         ctx.notes.append('conformance run for %s repeated once: %s' % (label, str(e).splitlines()[0]))
         with open(os.path.join(ctx.work, 'tlc-incomplete-%s.txt' % label), 'w') as f:
             f.write(str(e))
-        for k in ('impl_traces', 'tlc_checked_cases'):
-            ctx.cov.pop(k, None)
         return ucheck.conformance(ctx, module, cfg, cases, label + '-retry', chunk=chunk, timeout=timeout, workers=4)
+
+
+def conformance(ctx, module, cfg, cases, label, chunk=20000, timeout=1500):
+    """Private variant of ucheck.conformance (lib/ucheck.py is shared): returns (P-rejected, I-rejected) indices.
+    TLC reports only the FIRST violated invariant of a state, so a case rejected by CaseOk says nothing about ImplOk.
+    Because the witness class 'i_layer' (does today's-behaviour model explain the result?) decides whether a P-rejection
+    may match a known finding, the P-rejected cases are evaluated a second time with ImplOk as the only invariant."""
+    before = {k: ctx.cov.get(k, 0) for k in ('impl_traces', 'tlc_checked_cases')}
+    prej, irej = _conf_once(ctx, module, cfg, cases, label, chunk, timeout)
+    if prej:
+        icfg = os.path.join(ctx.work, os.path.basename(cfg)[:-4] + '_I.cfg')
+        with open(icfg, 'w') as f:
+            f.write('INIT ConfInit\nNEXT ConfNext\nINVARIANTS ImplOk\nCHECK_DEADLOCK FALSE\n')
+        sub = [cases[i] for i in prej]
+        _, ir2 = _conf_once(ctx, module, icfg, sub, label + '-ilayer', chunk, timeout)
+        irej = sorted(set(irej) | {prej[j] for j in ir2})
+    for k in before:                       # count every case once
+        ctx.cov[k] = before[k] + len(cases)
+    return prej, irej
 
 
 # ---------------------------------------------------------------------------------------------
